@@ -31,7 +31,7 @@ CLAIMED = {
  "C11": ("vgraph", "property-based + metamorphic testing: subpattern DAGs rendered with references and AST-inlined; reference lexer from the inlined text; generate() equality with the inlined definition; planted undefined/forward references must be rejected",
          "Exploration (tier G).", REF, "7/C11"),
  "C12": ("subjects", "differential (twin) property testing on compiled lexers: every str-mode subject is compiled a second time with utf8 = false in the same module; Ok tokens+spans and error byte sets compared on valid UTF-8 inputs",
-         "Exploration in 4 configurations: twin-against-twin on valid UTF-8 for every str-mode core and subpattern subject; byte-mode subjects on inputs that are not valid UTF-8 are judged against the reference (Unicode-aware patterns never match across invalid sequences); acceptance clause shared with C04 (tier G, DFA x UTF-8 validator).", "Trusted: the two compiled twins for the first clause; regex-automata DFAs for the byte-mode and acceptance clauses.", "7/C12"),
+         "Exploration in 4 configurations: twin-against-twin on valid UTF-8 for every str-mode core and subpattern subject; byte-mode subjects on inputs that are not valid UTF-8 are judged against the reference (Unicode-aware patterns never match across invalid sequences); acceptance clause shared with C04 (tier G, DFA x UTF-8 validator) plus the relation 'accepted in str mode => accepted with utf8 = false'.", "Trusted: the two compiled twins for the first clause; regex-automata DFAs for the byte-mode and acceptance clauses.", "7/C12"),
  "C13": ("subjects", "model-based property testing on compiled lexers: callbacks of every documented return type with pure decision functions; model = documented table applied to the stream of a callback-free twin (one unit variant per leaf) restarted at model positions; callback and error-callback logs compared; Skip-vs-skip-pattern twin",
          "Exploration in 4 configurations over generated callback definitions (4 attachment forms, bumps, custom error type with From, optional error callback).", "Trusted: the callback-free twin of the same build for pattern selection (agreement with the regex language is C01's business).", "7/C13"),
  "C14": ("apicheck", "model-based (stateful) property testing: proptest op histories interpreted against the real Lexer and a reference model in lock-step; next() expected from a fresh lexer over the suffix",
@@ -44,7 +44,7 @@ CLAIMED = {
          "Exploration over enum sources and file histories.", "Trusted: syn for the independent expected enum.", "7/C17"),
  "C18": ("vgraph", "metamorphic property testing: every permutation of named attribute arguments and dependency-respecting permutations of #[logos(...)] items vs the canonical order (acceptance and generate() equality)",
          "Exploration (tier G).", "Trusted: generate() string equality as lexer equivalence (sufficient, not necessary; skips reordering uses leaf multiset + automaton size).", "7/C18"),
- "C19": ("vgraph+rustc", "property-based fuzzing of the derive with structured attribute soup under catch_unwind (library path) and through rustc with the real proc-macro on stable (JSON diagnostics), plus constructively generated must-reject classes",
+ "C19": ("vgraph+rustc", "property-based fuzzing of the derive with structured attribute soup under catch_unwind (library path) and through rustc with the real proc-macro on stable (JSON diagnostics), plus constructively generated must-reject classes and the definition families of the other checks (lexing, subpattern, literal, conflict) under C19's oracle",
          "Exploration. No panic in either path (library under catch_unwind, real proc-macro through rustc); non-termination of a derive call (90 s watchdog) is a violation; must-reject => compile_error; library diagnostics reappear in rustc's output; accepted => output parses, graph invariants hold, and every definition of the compiled subject set builds in all four configurations.", "Trusted: rustc's 'proc-macro derive panicked' diagnostic as panic detector in tier P.", "7/C19"),
  "C20": ("subjects", "property-based testing with a read-trace hook: per attempt, read offsets monotone, reads linear in bytes examined, first read at the attempt start; compiled lexers in 4 configurations, adversarial stress family on long inputs",
          "Exploration over the core subject family (covering + random inputs) and a fixed stress family of nested/overlapping repetitions ((a*)*b, (c|cc)+d, (e|ef)(g|fgh)*i, k(.*l)?, keyword/identifier overlaps, escaped strings, callback skips) on long inputs (64 KiB linear shapes, 2 KiB quadratic shapes; thorough 256 KiB / 8 KiB).", "Trusted: the verif_hooks trace records every LexerInternal::read.", "7/C20"),
